@@ -10,6 +10,11 @@ from vlib.ref import dft as rdft
 from vlib.ref import plane_model as pm
 from vlib.runner import (Skip, Violation, hyp, known_predicate, known_probe, lentil_call)
 
+# the check's own calls are issued with keywords or positionally in the documented order (vlib/callforms.py)
+from vlib import callforms as _cf
+lentil = _cf.proxy(lentil)
+fourier = _cf.proxy(fourier, "fourier.")
+
 RULE = ("apertures with a drawn partition of the support into 1..5 segments (stripes, Voronoi, interleaved, "
         "random labels), optional second plane, drawn propagation settings; non-trivial = k >= 2 segments; "
         "distinct = distinct canonical descriptors")
@@ -395,3 +400,45 @@ def fit_segments(case, ctx):
         raise Violation("C03.fit.fitted", f"the image of the segmented plane changes by "
                                           f"{cm.max_abs(f_seg_fit - f_mono) / peak:.3e} of its peak when the segment tilts "
                                           f"(all below half a sample; displacements {case['disp']}) are fitted first")
+
+
+# --- the FFT propagator, with and without a scratch buffer -----------------------------------------------------
+
+def _fft_seg_case(tier):
+    from checks import c09_fft as c9
+    return c9.fft_case(tier).filter(lambda s: s["pupil"]["labels"] is not None and int(s["pupil"]["labels"].max()) >= 2
+                                    and s["shape_kind"] != "too_large" and min(s["pshape"]) >= 3)
+
+
+@hyp("C03", "fft_segments", _fft_seg_case,
+     "propagate_fft (no scratch / exact / larger / dirty scratch) of the segmented description equals that of the "
+     "monolithic description of the same aperture (segments with overlapping bounding boxes included)",
+     examples=(120, 500))
+def fft_segments(s, ctx):
+    from checks import c09_fft as c9
+    p = s["pupil"]
+    if p["labels"] is None or int(p["labels"].max()) < 2:
+        raise Skip("not_segmented")
+    if c9.single_sample(p) or s["shape_kind"] == "too_large":
+        raise Skip("single_sample_segment(known)" if c9.single_sample(p) else "shape_refused")
+    k = int(p["labels"].max())
+    ctx.tag(f"k:{k}", "scratch:" + s["scratch"], "bbox_overlap" if _bbox_overlap(p["labels"]) else "bbox_disjoint")
+    ctx.nontrivial_if(True)
+    grid = tuple(s["grid"])
+    mono = dict(p, labels=None)
+
+    def run(pd):
+        w, _ = c9.build(s, p=pd)
+        kw = {}
+        if s["shape"] is not None:
+            kw["shape"] = cm.shape_arg(s["shape"])
+        sc, _b = c9.make_scratch(s["scratch"], grid, s["extra"], seed=grid[0] * 7 + grid[1])
+        if sc is not None:
+            kw["scratch"] = sc
+        return lentil.propagate_fft(w, pixelscale=cm.as_ps(s["du"]), oversample=s["oversample"], **kw).field
+    with lentil_call("C03.fft", f"propagate_fft (scratch {s['scratch']})"):
+        f_seg, f_mono = run(p), run(mono)
+    peak = max(cm.max_abs(f_mono), 1e-300)
+    if f_seg.shape != f_mono.shape or cm.max_abs(f_seg - f_mono) > 1e-11 * peak:
+        raise Violation("C03.fft.field", f"propagate_fft of the segmented description (k={k}, scratch {s['scratch']}) differs "
+                                         f"from the monolithic one by {cm.max_abs(f_seg - f_mono) / peak:.3e} of the peak")
